@@ -115,7 +115,27 @@ impl Oplog {
     }
 
     pub fn last_op_time() -> u64 {
-        let mut f = get_log_file_read_mode(&Oplog::get_op_log_file_name());
+        let current_file_time = Oplog::last_op_time_from_file(&Oplog::get_op_log_file_name());
+        if current_file_time > 0 {
+            return current_file_time;
+        }
+        // Right after a rotation the current file is empty, the newest record is in the newest
+        // rotated file
+        for entry in get_op_log_entries_by_creation_date() {
+            let file_name = entry.file_name().into_string().unwrap();
+            if file_name.ends_with(".op") {
+                let full_path = format!("{}/{}", get_op_log_dir_name(), file_name);
+                let rotated_file_time = Oplog::last_op_time_from_file(&full_path);
+                if rotated_file_time > 0 {
+                    return rotated_file_time;
+                }
+            }
+        }
+        0
+    }
+
+    fn last_op_time_from_file(file_name: &String) -> u64 {
+        let mut f = get_log_file_read_mode(file_name);
         let total_size = f.metadata().unwrap().len();
         let size_as_u64 = OP_RECORD_SIZE as u64;
         // if the file is empty return 0 to avoid  attempt to subtract with overflow error
